@@ -510,3 +510,35 @@ contract(
 
 def conn_for(ghost, transport):
     return ghost.le_conn if transport == PhysicalTransport.LE else ghost.br_conn
+
+
+# ---------------------------------------------------------------------------
+# host.Connection.__init__: the data queue (hence the fragment size and the credits) is the one of the connection's transport
+# ---------------------------------------------------------------------------
+model('ghost:HostQueues', fields=dict(acl_packet_queue=Opt(Opaque('queue')), le_acl_packet_queue=Opt(Opaque('queue'))))
+model(
+    'bumble.host:Connection#new',
+    fields=dict(host=Any, handle=Any, peer_address=Any, assembler=Any, transport=Any, acl_packet_queue=Any),
+)
+contract(
+    'bumble.host:Connection.__init__',
+    prop='C05',
+    params=dict(
+        self=Inst('bumble.host:Connection#new'),
+        host=Inst('ghost:HostQueues'),
+        handle=IntRange(0, 0xFFF),
+        peer_address=Opaque('address'),
+        transport=OneOf(core.PhysicalTransport.LE, core.PhysicalTransport.BR_EDR),
+    ),
+    # fragments are cut to the ACL data length of the controller buffer pool that carries this transport
+    ensures=lambda self, host, handle, transport: [
+        self.acl_packet_queue is (host.le_acl_packet_queue if transport == core.PhysicalTransport.LE else host.acl_packet_queue),
+        self.acl_packet_queue is not None,
+        self.handle == handle,
+        clean(self.assembler),
+    ],
+    ensures_names=['queue-of-the-transport', 'queue-exists', 'handle', 'assembler-clean'],
+    raises={AssertionError: lambda host, transport: (host.le_acl_packet_queue if transport == core.PhysicalTransport.LE else host.acl_packet_queue) is None},
+    modifies=['self.*'],
+    inline=['HCI_AclDataPacketAssembler.__init__'],
+)
